@@ -439,7 +439,7 @@ fn main() {
     }
     let tier = cli.tier;
     let mut rep = Report::new("C16", tier, "exploration");
-    rep.rule = "full grid: every inner-outcome script over {ok, connection error, other error} of length max_attempts+2 (4 + final ok when unlimited) x max_attempts {0,1,2,3,unlimited} x policy {none, zero, fixed 10 ms, exponential, jittered, custom, fixed 0.9 ms, fixed 2.75 ms} x retry_on_reconnect x predicate x an earlier request through the same service {none, succeeds at once, succeeds after one reconnect, fails with a non-connection error, meets connection errors only}, each run stepped event by event under virtual time with the published connection state sampled during every sleep and at every inner call start; distinct = distinct (configuration, attempts made, result) triples".into();
+    rep.rule = "full grid: every inner-outcome script over {ok, connection error, other error} of length max_attempts+2 (4 + final ok when unlimited) x max_attempts {0,1,2,3,unlimited} x policy {none, zero, fixed 10 ms, exponential, jittered, custom, fixed 0.9 ms, fixed 2.75 ms} x retry_on_reconnect x predicate x an earlier request through the same service {none, succeeds at once, succeeds after one reconnect, fails with a non-connection error, meets connection errors only, meets a connection error and then a non-connection error}, each run stepped event by event under virtual time with the published connection state sampled during every sleep and at every inner call start; distinct = distinct (configuration, attempts made, result) triples".into();
     rep.assumptions = vec![
         "the delay before retry k is compared with the smaller of the policy's values for attempt indices k-1 and k (the documentation does not fix the numbering)".into(),
         "jittered delays: lower bound (1 - randomization factor) x base checked on every draw".into(),
@@ -449,7 +449,9 @@ fn main() {
     let mut n_scripts = 0u64;
     // an earlier request through the same service: none / succeeds at once / succeeds after one
     // reconnect / fails with a non-connection error / meets connection errors only
-    let preludes: Vec<Vec<u8>> = vec![vec![], vec![0], vec![1, 0], vec![2], vec![1, 1, 1, 1, 1]];
+    // (... / meets a connection error and then, on the retry, an error that is none: with a
+    // predicate that request ends there and leaves the state as the outage set it)
+    let preludes: Vec<Vec<u8>> = vec![vec![], vec![0], vec![1, 0], vec![2], vec![1, 1, 1, 1, 1], vec![1, 2]];
     for cfg in &cfgs {
         for pre in &preludes {
             if cfg.pol == Pol::Forever && pre.iter().any(|o| *o != 0) {
@@ -464,7 +466,7 @@ fn main() {
                 rep.outcomes.insert(outcome.clone());
                 if outcome.starts_with("2:") || outcome.starts_with("3:") || outcome.starts_with("4:") {
                     rep.witness("retried", 1);
-                    if pre.len() == 1 || pre.len() == 2 {
+                    if *pre == vec![0u8] || *pre == vec![1u8, 0] {
                         rep.witness("retried_after_an_earlier_success", 1);
                     }
                 }
